@@ -316,3 +316,5 @@ class FloatEnumParam(Parameter):
         super().finish(modobj)
         if modobj:
             modobj.addCallback(self.idx_name, self.trigger_setter, modobj)
+            # start with the value belonging to the initial index
+            self.value = self.valuedict[modobj.parameters[self.idx_name].value]
